@@ -260,3 +260,11 @@ Definition kernel02 := kernel02_g gen_shadowsQ gen_shadowsQ.
 Definition kernel11 := kernel11_g gen_shadowsQ gen_shadowsQ.
 Definition kernel12 := kernel12_g gen_shadowsQ gen_shadowsQ.
 Definition w03_sum := w03_sum_g gen_shadowsQ gen_shadowsQ.
+
+(* executable form of Kernel.closed_mesh (evaluated by the correspondence
+   driver on every operand the implementation hands to Boolean3) *)
+Definition closed_meshb (m : kmesh) (nTri : nat) : bool :=
+  forallb (fun k => let h := Z.of_nat k in
+     ((0 <=? hpair m h) && (hpair m h <? 3 * Z.of_nat nTri) && (hpair m (hpair m h) =? h)
+      && (hstart m (hpair m h) =? hend m h) && (hend m (hpair m h) =? hstart m h)
+      && negb (hstart m h =? hend m h))%Z) (seq 0 (3 * nTri)).
